@@ -581,7 +581,9 @@ def explore_multi(ctx, tools, n):
     for extra in ([[50, 50]], [[0, 0]], [[100, 40]], [[500, 500]], [], [[10, 10], [10, 10]]):
         cases += [dict(rect=R, paths=[A, extra], mag=100), dict(rect=R, paths=[extra, A], mag=100), dict(rect=R, paths=[A, extra, B], mag=100),
                   dict(rect=R, paths=[A, B, extra, extra], mag=100), dict(rect=R, paths=[A, [[600, 5], [700, 9]], extra, B], mag=100)]
+    t0 = __import__('time').time()
     ev = eval_multi(tools, cases)
+    ctx.log('%d calls with several paths (%d paths) evaluated in %.1fs' % (len(cases), sum(len(c['paths']) for c in cases), __import__('time').time() - t0))
     ctx.count('evaluations', len(cases))
     ctx.count('multi_path_calls', len(cases))
     mism, shrunk, nontriv = [], set(), 0
